@@ -86,6 +86,13 @@ def build_input(inp, spec, ctx):
     raise ValueError(k)
 
 
+def input_val(inp) -> Val:
+    v = input_value(inp)
+    k = inp["kind"]
+    # linspace: cubed computes start + i*step per block, NumPy uses its own formula: equal only up to rounding
+    return Val(v, exact=k not in ("random", "linspace"), comparable=k != "random", scale=max(1.0, _finite_max(v)))
+
+
 class BuildCtx:
     def __init__(self, input_store_factory=None):
         self._factory = input_store_factory
@@ -234,7 +241,7 @@ def derive_meta(op: ir.Op, name, argvals, params, v) -> Val:
 def eval_numpy(prog) -> list[Val]:
     vals = []
     for inp in prog["inputs"]:
-        vals.append(Val(input_value(inp), exact=inp["kind"] != "random", comparable=inp["kind"] != "random"))
+        vals.append(input_val(inp))
     for node in prog["nodes"]:
         op = OPS[node["op"]]
         args = [vals[i] for i in node["args"]]
@@ -550,7 +557,7 @@ def programs(profile="dag", max_ops=6, min_ops=0, n_inputs=(1, 3), opts=None, ou
         inputs = []
         for k in range(nin):
             inputs.append(draw_input(draw, st, k, inputs, opts))
-        vals = [Val(input_value(i), exact=i["kind"] != "random", comparable=i["kind"] != "random") for i in inputs]
+        vals = [input_val(i) for i in inputs]
         nodes = []
         nops = draw(st.integers(min_ops, max_ops))
         for _ in range(nops):
